@@ -59,8 +59,8 @@ func (o *PubSub[T]) PubWait(ev T) {
 	for _, sub := range o.subs {
 		go o.sendWaitGroup(ev, sub, o.PubTimeoutAfter, o.OnPubTimeout, &wg)
 	}
-	o.mutex.RUnlock()
 	wg.Wait()
+	o.mutex.RUnlock()
 }
 
 // PubSliceWait blocks while sending a slice of events to all subscriptions in
@@ -75,8 +75,8 @@ func (o *PubSub[T]) PubSliceWait(evs []T) {
 			go o.sendWaitGroup(ev, sub, o.PubTimeoutAfter, o.OnPubTimeout, &wg)
 		}
 	}
-	o.mutex.RUnlock()
 	wg.Wait()
+	o.mutex.RUnlock()
 }
 
 // PubSync blocks while sending the event syncronously to all subscriptions
